@@ -15,7 +15,8 @@
 (*       policy first, so a request that arrives while older requests are     *)
 (*       still queued is forwarded ahead of them when the policy has a token  *)
 (*       (the arrival instant equals the pending drain-poll instant).         *)
-(*       With Dev = {} a request that finds the queue non-empty queues up.    *)
+(*       With Dev = {} a request that finds the policy willing while older   *)
+(*       requests wait lets the oldest one use the token and queues up itself.*)
 (*   poll_pop_before_acquire: _handle_poll pops the head before asking the    *)
 (*       policy and loses it when the policy denies.                          *)
 (*   poll_pops_newest: the drain takes the newest queued request.             *)
@@ -49,22 +50,22 @@ Arrive ==
     /\ nreq < MaxReq /\ ~polled
     /\ LET id == nreq + 1
            r == Refill
-           ask == Has("admit_bypasses_queue") \/ queue = <<>>     \* does the handler call try_acquire
-           ok == ask /\ r[1] >= P
-           c1 == IF ask THEN (IF ok THEN r[1] - P ELSE r[1]) ELSE credit
-           l1 == IF ask THEN r[2] ELSE last
-       IN /\ nreq' = id
-          /\ IF ok
-             THEN /\ fwd' = Append(fwd, <<id, now>>) /\ credit' = c1 /\ last' = l1
+           ok == r[1] >= P                                        \* try_acquire(now)
+           c1 == IF ok THEN r[1] - P ELSE r[1]
+           l1 == r[2]
+       IN /\ nreq' = id /\ credit' = c1 /\ last' = l1
+          /\ IF ok /\ (Has("admit_bypasses_queue") \/ queue = <<>>)
+             THEN /\ fwd' = Append(fwd, <<id, now>>)
                   /\ UNCHANGED <<queue, pollAt, dropped>>
+             ELSE IF ok                  \* older requests wait: the oldest uses the token, this one lines up
+             THEN /\ fwd' = Append(fwd, <<queue[1], now>>)
+                  /\ queue' = Append(Tail(queue), id)
+                  /\ UNCHANGED <<pollAt, dropped>>
              ELSE IF Len(queue) < QCap
              THEN /\ queue' = Append(queue, id)
-                  /\ IF pollAt = None
-                     THEN LET r2 == IF ask THEN <<c1, l1>> ELSE Refill IN      \* _ensure_poll_scheduled -> tua refills
-                          /\ pollAt' = now + TuaOf(r2[1]) /\ credit' = r2[1] /\ last' = r2[2]
-                     ELSE /\ pollAt' = pollAt /\ credit' = c1 /\ last' = l1
+                  /\ pollAt' = IF pollAt = None THEN now + TuaOf(c1) ELSE pollAt   \* _ensure_poll_scheduled
                   /\ UNCHANGED <<fwd, dropped>>
-             ELSE /\ dropped' = Append(dropped, id) /\ credit' = c1 /\ last' = l1
+             ELSE /\ dropped' = Append(dropped, id)
                   /\ UNCHANGED <<queue, pollAt, fwd>>
     /\ UNCHANGED <<now, polled>>
 
